@@ -97,11 +97,17 @@ func main() {
 	files["Consts.v"] = genConsts()
 	files["CommandTable.v"] = genCommandTable(*repo)
 	files["LuaAllow.v"] = genLuaAllow()
+	files["LuaGlobals.v"] = genLuaGlobals() // t38x/luaglobals.go: globals borrowers set on pooled interpreters and how they are removed (C18)
+	files["ReplyFlush.v"] = genReplyFlush() // t38x/luaglobals.go: what decides the pre-reply flush in netServe (C18)
 	files["LuaPool.v"] = genLuaPool() // t38x/luapool.go: users of the interpreter pool and the eval-mode registry (C18)
 	files["Startup.v"] = genStartup() // t38x/startup.go: go statements with their guards (C14)
 	files["RoleGates.v"] = genRoleGates() // t38x/rolegates.go: arm statement order, READONLY, protected-mode, followStep lpos (C15)
 	files["GlobMeta.v"] = genGlobMeta(*repo) // t38x/globmeta.go: glob.IsGlob case list + the ROAM clause's pattern-vs-literal call sites (C20)
+	files["SetHookOrder.v"] = genSetHookOrder() // t38x/sethookorder.go: cmdSetHook's registry statements in source order (C20: re-defined roaming fences)
 	files["ShrinkFinal.v"] = genShrinkFinal() // t38x/shrinkfinal.go: statements of the final section of aofshrink (C09)
+	files["LiveHandover.v"] = genLiveHandover() // t38x/livehandover.go: what netServe's hand-over to live mode does to the PipelineReader (C16)
+	files["FollowSteps.v"] = genFollowSteps() // t38x/followsteps.go: guarded statements of the follower side of replication (C06)
+	files["ReplayTol.v"] = genReplayTol() // t38x/replaytol.go: commandErrIsFatal evaluated on every error sentinel + its use in loadAOF (C03)
 	if len(errs) > 0 {
 		for _, e := range errs {
 			fmt.Fprintln(os.Stderr, "t38x: obligation broken:", e)
@@ -2006,6 +2012,360 @@ func queueDiscipline(typ, field string) (pushBack, popFront bool) {
 	return
 }
 
+// ---------- cells of the hand-over queues ----------
+//
+// Server.lstack keeps POINTERS to commandDetails; processLives / goLive read what they point to
+// later, after the writer has released the server lock. What the consumer reads for entry i is the
+// details of write i only if the cell that was pushed is not pushed again and not written again.
+// For every queue field of queue_disc that is shared state, t38x finds the functions that push one
+// of their pointer parameters (directly: `Q = append(Q, p)`, or the elements of a slice field of
+// it: `Q = append(Q, p.f...)`), closes that over wrappers that pass their own parameter on, and
+// classifies the argument at every call site, and every element appended to such a slice field:
+//
+//	fresh:  &T{...} / nil / &v where v is a local variable declared inside every loop and closure
+//	        that encloses the site (one cell per iteration), that is handed to no other pushing
+//	        site, and that is not assigned after the site
+//	shared: anything else (a variable that outlives the iteration, an unknown expression)
+
+type retainer struct {
+	fn    string // funcKey
+	param int    // index in the parameter list (receiver not counted)
+	elems string // "" or the slice field of the parameter whose elements are pushed
+}
+
+type cellSite struct {
+	site, how string
+	fresh     bool
+}
+
+func paramIndex(fd *ast.FuncDecl, obj types.Object) int {
+	i := 0
+	for _, f := range fd.Type.Params.List {
+		for _, n := range f.Names {
+			if info.Defs[n] == obj {
+				return i
+			}
+			i++
+		}
+		if len(f.Names) == 0 {
+			i++
+		}
+	}
+	return -1
+}
+
+func identObj(e ast.Expr) types.Object {
+	for {
+		p, ok := e.(*ast.ParenExpr)
+		if !ok {
+			break
+		}
+		e = p.X
+	}
+	if id, ok := e.(*ast.Ident); ok {
+		return info.Uses[id]
+	}
+	return nil
+}
+
+// enclosing returns the chain of nodes from the function body down to the node at position p
+func enclosing(root ast.Node, p token.Pos) []ast.Node {
+	var path []ast.Node
+	ast.Inspect(root, func(n ast.Node) bool {
+		if n == nil {
+			return false
+		}
+		if n.Pos() <= p && p < n.End() {
+			path = append(path, n)
+			return true
+		}
+		return false
+	})
+	return path
+}
+
+func queueCells(typ, field string) []cellSite {
+	var out []cellSite
+	// 1. direct retainers
+	var rets []retainer
+	has := func(r retainer) bool {
+		for _, x := range rets {
+			if x == r {
+				return true
+			}
+		}
+		return false
+	}
+	keys := []string{}
+	for k := range funcs {
+		keys = append(keys, k)
+	}
+	sort.Strings(keys)
+	for _, k := range keys {
+		fd := funcs[k]
+		ast.Inspect(fd.Body, func(n ast.Node) bool {
+			as, ok := n.(*ast.AssignStmt)
+			if !ok || len(as.Lhs) != len(as.Rhs) {
+				return true
+			}
+			for i, l := range as.Lhs {
+				if !isFieldOf(l, typ, field) {
+					continue
+				}
+				call, ok := as.Rhs[i].(*ast.CallExpr)
+				if !ok {
+					continue
+				}
+				if id, ok := call.Fun.(*ast.Ident); !ok || id.Name != "append" {
+					continue
+				}
+				for j, a := range call.Args[1:] {
+					last := j == len(call.Args)-2
+					if obj := identObj(a); obj != nil {
+						if pi := paramIndex(fd, obj); pi >= 0 {
+							if _, isPtr := obj.Type().Underlying().(*types.Pointer); isPtr && !has(retainer{k, pi, ""}) {
+								rets = append(rets, retainer{k, pi, ""})
+							}
+						}
+						continue
+					}
+					if sel, ok := a.(*ast.SelectorExpr); ok && last && call.Ellipsis.IsValid() {
+						if obj := identObj(sel.X); obj != nil {
+							ef := namedOf(obj.Type()) + "." + sel.Sel.Name
+							if pi := paramIndex(fd, obj); pi >= 0 && !has(retainer{k, pi, ef}) {
+								rets = append(rets, retainer{k, pi, ef})
+							}
+						}
+					}
+				}
+			}
+			return true
+		})
+	}
+	if len(rets) == 0 {
+		return nil
+	}
+	// 2. call sites (and wrappers that pass their own parameter on), to a fixpoint
+	type csite struct {
+		fd   *ast.FuncDecl
+		call *ast.CallExpr
+		arg  ast.Expr
+	}
+	var sites []csite
+	seenCall := map[*ast.CallExpr]bool{}
+	for changed := true; changed; {
+		changed = false
+		for _, k := range keys {
+			fd := funcs[k]
+			ast.Inspect(fd.Body, func(n ast.Node) bool {
+				call, ok := n.(*ast.CallExpr)
+				if !ok {
+					return true
+				}
+				ck := calleeKey(call)
+				for _, r := range rets {
+					if r.fn != ck || r.param >= len(call.Args) {
+						continue
+					}
+					a := call.Args[r.param]
+					if obj := identObj(a); obj != nil {
+						if pi := paramIndex(fd, obj); pi >= 0 {
+							if _, isPtr := obj.Type().Underlying().(*types.Pointer); isPtr {
+								if !has(retainer{k, pi, r.elems}) {
+									rets = append(rets, retainer{k, pi, r.elems})
+									changed = true
+								}
+								continue
+							}
+						}
+					}
+					if r.elems == "" && !seenCall[call] {
+						seenCall[call] = true
+						sites = append(sites, csite{fd, call, a})
+					}
+				}
+				return true
+			})
+		}
+	}
+	// how often each variable is handed to a pushing site
+	handed := map[types.Object]int{}
+	addrVar := func(e ast.Expr) types.Object {
+		u, ok := e.(*ast.UnaryExpr)
+		if !ok || u.Op != token.AND {
+			return nil
+		}
+		return identObj(u.X)
+	}
+	for _, c := range sites {
+		if v := addrVar(c.arg); v != nil {
+			handed[v]++
+		}
+	}
+	classify := func(fd *ast.FuncDecl, at ast.Node, e ast.Expr) (string, bool) {
+		for {
+			p, ok := e.(*ast.ParenExpr)
+			if !ok {
+				break
+			}
+			e = p.X
+		}
+		if id, ok := e.(*ast.Ident); ok && id.Name == "nil" {
+			return "nil", true
+		}
+		u, ok := e.(*ast.UnaryExpr)
+		if !ok || u.Op != token.AND {
+			return "unknown expression", false
+		}
+		if _, ok := u.X.(*ast.CompositeLit); ok {
+			return "new literal", true
+		}
+		obj := identObj(u.X)
+		v, ok := obj.(*types.Var)
+		if !ok || v.IsField() || v.Parent() == pkg.Types.Scope() {
+			return "address of a non-local", false
+		}
+		for _, n := range enclosing(fd.Body, at.Pos()) {
+			switch n.(type) {
+			case *ast.ForStmt, *ast.RangeStmt, *ast.FuncLit:
+				if !(n.Pos() <= v.Pos() && v.Pos() < n.End()) {
+					return "&" + v.Name() + ": declared outside the loop / closure around the site", false
+				}
+			}
+		}
+		if handed[obj] > 1 {
+			return "&" + v.Name() + ": handed to more than one pushing site", false
+		}
+		written := false
+		ast.Inspect(fd.Body, func(n ast.Node) bool {
+			if n == nil || n.Pos() < at.End() {
+				return true
+			}
+			switch x := n.(type) {
+			case *ast.AssignStmt:
+				for _, l := range x.Lhs {
+					r := l
+					for {
+						switch y := r.(type) {
+						case *ast.SelectorExpr:
+							r = y.X
+							continue
+						case *ast.IndexExpr:
+							r = y.X
+							continue
+						case *ast.ParenExpr:
+							r = y.X
+							continue
+						}
+						break
+					}
+					if identObj(r) == obj {
+						written = true
+					}
+				}
+			case *ast.IncDecStmt:
+				if identObj(x.X) == obj {
+					written = true
+				}
+			}
+			return true
+		})
+		if written {
+			return "&" + v.Name() + ": assigned after the site", false
+		}
+		return "&" + v.Name() + ": one variable per call", true
+	}
+	for _, c := range sites {
+		how, fresh := classify(c.fd, c.call, c.arg)
+		out = append(out, cellSite{pos(c.call), how, fresh})
+	}
+	// 3. elements of the slice fields that are pushed with `...`
+	elemFields := map[string]bool{}
+	for _, r := range rets {
+		if r.elems != "" {
+			elemFields[r.elems] = true
+		}
+	}
+	for _, k := range keys {
+		fd := funcs[k]
+		// local slices that are assigned to such a field in this function
+		feeds := map[types.Object]bool{}
+		ast.Inspect(fd.Body, func(n ast.Node) bool {
+			as, ok := n.(*ast.AssignStmt)
+			if !ok || len(as.Lhs) != len(as.Rhs) {
+				return true
+			}
+			for i, l := range as.Lhs {
+				if sel, ok := l.(*ast.SelectorExpr); ok {
+					if s, ok := info.Selections[sel]; ok && s.Kind() == types.FieldVal && elemFields[namedOf(s.Recv())+"."+sel.Sel.Name] {
+						if obj := identObj(as.Rhs[i]); obj != nil {
+							feeds[obj] = true
+						} else if id, ok := as.Rhs[i].(*ast.Ident); !ok || id.Name != "nil" {
+							if call, ok := as.Rhs[i].(*ast.CallExpr); ok {
+								if f, ok := call.Fun.(*ast.Ident); ok && f.Name == "append" && !call.Ellipsis.IsValid() {
+									for _, a := range call.Args[1:] {
+										how, fresh := classify(fd, as, a)
+										out = append(out, cellSite{pos(a), how, fresh})
+									}
+									continue
+								}
+							}
+							out = append(out, cellSite{pos(as), "unknown expression assigned to ." + sel.Sel.Name, false})
+						}
+					}
+				}
+			}
+			return true
+		})
+		if len(feeds) == 0 {
+			continue
+		}
+		ast.Inspect(fd.Body, func(n ast.Node) bool {
+			as, ok := n.(*ast.AssignStmt)
+			if !ok || len(as.Lhs) != len(as.Rhs) {
+				return true
+			}
+			for i, l := range as.Lhs {
+				id, ok := l.(*ast.Ident)
+				if !ok {
+					continue
+				}
+				obj := info.Uses[id]
+				if obj == nil {
+					obj = info.Defs[id]
+				}
+				if !feeds[obj] {
+					continue
+				}
+				switch r := as.Rhs[i].(type) {
+				case *ast.CallExpr:
+					f, ok := r.Fun.(*ast.Ident)
+					if ok && f.Name == "append" && !r.Ellipsis.IsValid() && identObj(r.Args[0]) == obj {
+						for _, a := range r.Args[1:] {
+							how, fresh := classify(fd, as, a)
+							out = append(out, cellSite{pos(a), how, fresh})
+						}
+						continue
+					}
+					if ok && f.Name == "make" {
+						continue
+					}
+					out = append(out, cellSite{pos(as), "unknown expression feeding a pushed slice", false})
+				case *ast.Ident:
+					if r.Name != "nil" {
+						out = append(out, cellSite{pos(as), "unknown expression feeding a pushed slice", false})
+					}
+				default:
+					out = append(out, cellSite{pos(as), "unknown expression feeding a pushed slice", false})
+				}
+			}
+			return true
+		})
+	}
+	sort.Slice(out, func(i, j int) bool { return out[i].site < out[j].site })
+	return out
+}
+
 func genQueues() string {
 	var sb strings.Builder
 	sb.WriteString("\n(* the slices that hand a logged write over to the live fence connections (aof.go writeAOF ->\n   Server.lstack -> live.go processLives -> liveBuffer.details -> goLive): (field, (every push appends at\n   the back, every pop takes the element at the front)) *)\nDefinition queue_disc : list (string * (bool * bool)) :=\n  [")
@@ -2015,6 +2375,21 @@ func genQueues() string {
 		}
 		pb, pf := queueDiscipline(q[0], q[1])
 		fmt.Fprintf(&sb, "(%s, (%s, %s))", coqStr(q[0]+"."+q[1]), coqBool(pb), coqBool(pf))
+	}
+	sb.WriteString("].\n")
+	sb.WriteString("\n(* the cells behind the entries of those queues: Server.lstack keeps pointers, the live fence\n   connections read what they point to after the writer released the lock. Every site that hands a\n   cell to a pushing function (call sites of writeAOF and of its wrappers) or appends an element to a\n   slice whose elements are pushed: (site, (is the cell one that no other push and no later assignment\n   touches, how)) *)\nDefinition queue_cells : list (string * (bool * string)) :=\n  [")
+	first := true
+	for _, q := range [][2]string{{"Server", "lstack"}} {
+		for _, c := range queueCells(q[0], q[1]) {
+			if !first {
+				sb.WriteString(";\n   ")
+			}
+			first = false
+			fmt.Fprintf(&sb, "(%s, (%s, %s))", coqStr(c.site), coqBool(c.fresh), coqStr(c.how))
+		}
+	}
+	if first {
+		fail("queue cells: no site hands a cell to Server.lstack")
 	}
 	sb.WriteString("].\n")
 	return sb.String()
